@@ -43,6 +43,9 @@ def real_buffered(jinja2, size, pieces):
 
 def oracle_chunks(size, pieces, chunks):
     """The property itself on a real chunk list (independent of the model's algorithm)."""
+    # compare plain text: pieces / chunks may be Markup objects whose + would escape the other operand
+    pieces = ["".join([p]) for p in pieces]
+    chunks = ["".join([c]) for c in chunks]
     if "".join(chunks) != "".join(pieces):
         return "concatenation of buffered stream differs from concatenation of pieces"
     # every chunk except the last must be made of exactly `size` non-empty pieces
@@ -85,14 +88,29 @@ def run(ctx):
     for _ in range(ctx.size(2000, 20000)):
         n = ctx.rng.randint(5, 40)
         cases.append((ctx.rng.randint(-1, 9), [ctx.rng.choice(["", "", "a", "bc", "xyz"]) for _ in range(n)]))
-    lines = [f"{max(size, 0)} " + " ".join(enc_piece(p) for p in ps) for size, ps in cases]
+    # pieces as the generated code yields them under autoescape: static text is a plain str that may
+    # contain markup, escaped expression values are Markup objects; a chunk must be the plain
+    # concatenation of their text (driver alphabet: letters only, so '<' is written L, '&' A, ';' S)
+    from markupsafe import Markup
+    for _ in range(ctx.size(1500, 15000)):
+        n = ctx.rng.randint(2, 12)
+        cases.append((ctx.rng.randint(2, 5), [ctx.rng.choice(["", "LbG", Markup("AltS"), Markup(""), "x", Markup("LiG")])
+                                            for _ in range(n)]))
+    lines = [f"{max(size, 0)} " + " ".join(enc_piece(str(p)) for p in ps) for size, ps in cases]
     model = ctx.driver("stream", lines)
+    def _real(p):
+        if isinstance(p, Markup):
+            return Markup(str(p).replace("L", "<").replace("G", ">").replace("A", "&").replace("S", ";"))
+        return p.replace("L", "<").replace("G", ">").replace("A", "&").replace("S", ";")
+    def _back(t):
+        return t.replace("<", "L").replace(">", "G").replace("&", "A").replace(";", "S")
     for (size, ps), m in zip(cases, model):
         if size < 0:
             m_expected = "E"
         else:
             m_expected = m
-        impl = real_buffered(jinja2, size, ps)
+        impl = _back(real_buffered(jinja2, size, [_real(p) for p in ps]))
+        ps = [str(p) for p in ps]
         nontriv = ("" in ps) and m.count("|") >= 1
         ctx.case(sample={"size": size, "pieces": ps, "model": m}, key=(size, tuple(ps)) if nontriv else None)
         ctx.count("krt_value_error" if m_expected == "E" else "krt_ok")
@@ -114,11 +132,14 @@ def run(ctx):
     tmpdir = tempfile.mkdtemp(prefix="c10_", dir=lib.BUILD)
     try:
         for idx in range(n_sets):
-            g = TGen(ctx.rng, depth=3)
+            auto = idx % 3 == 1
+            g = TGen(ctx.rng, depth=3, meta=(idx % 3 != 0))
             ts, main = g.template_set()
+            if idx % 3 == 2:
+                ts[main] = "{% autoescape true %}<p>" + ts[main] + "</p>{% endautoescape %}" if "extends" not in ts[main] else ts[main]
             data = g.data()
-            case = {"templates": ts, "data": data, "index": idx}
-            w = oracle_entry_points(jinja2, ts, main, data, tmpdir, ctx)
+            case = {"templates": ts, "data": data, "index": idx, "autoescape": auto}
+            w = oracle_entry_points(jinja2, ts, main, data, tmpdir, ctx, auto)
             if w == "skip":
                 ctx.count("o_render_error")
                 continue
@@ -131,8 +152,8 @@ def run(ctx):
         os.rmdir(tmpdir)
 
 
-def oracle_entry_points(jinja2, ts, main, data, tmpdir, ctx):
-    env = jinja2.Environment(loader=jinja2.DictLoader(ts))
+def oracle_entry_points(jinja2, ts, main, data, tmpdir, ctx, autoescape=False):
+    env = jinja2.Environment(loader=jinja2.DictLoader(ts), autoescape=autoescape)
     try:
         t = env.get_template(main)
         ref = t.render(**data)
@@ -192,7 +213,7 @@ def replay(ctx, data):
             ctx.reject(case, "model and implementation differ on replayed case")
     else:
         tmpdir = tempfile.mkdtemp(prefix="c10_", dir=lib.BUILD)
-        w = oracle_entry_points(jinja2, case["templates"], "main.html", case["data"], tmpdir, ctx)
+        w = oracle_entry_points(jinja2, case["templates"], "main.html", case["data"], tmpdir, ctx, case.get("autoescape", False))
         for f in os.listdir(tmpdir):
             os.unlink(os.path.join(tmpdir, f))
         os.rmdir(tmpdir)
